@@ -1,0 +1,50 @@
+//go:build verif
+
+// Contracts for the verifier in /verif (comment-only file; contributes no declarations).
+package utils
+
+// The size function is a pure function of the entry (no effects); its value is unconstrained.
+//@ field MemoryCache.calculateSizeFunc
+//@   modifies nothing
+
+// currentCacheSize is deliberately read outside the lock by Set (see the comment in the code), so it is not listed as protected.
+//@ monitor MemoryCache.mutex
+//@   self c
+//@   protects cache
+//@   rely[map-stays] old(c.cache) != nil ==> c.cache == old(c.cache)
+
+//@ func (*MemoryCache).Get
+//@   prop C12, C17
+//@   requires cache.clock != nil
+//@   allocates map
+//@   modifies cache.cache, now
+//@   ensures[hit]  result1 ==> atlock(cache.cache != nil && in(key, cache.cache)) && result0 == atlock(cache.cache[key].value) && now() <= atlock(cache.cache[key].expirationTimeNano)
+//@   ensures[miss] seq: !result1 ==> !old(cache.cache != nil && in(key, cache.cache)) || now() > old(cache.cache[key].expirationTimeNano)
+//@   ensures[same-map] seq: old(cache.cache) != nil ==> cache.cache == old(cache.cache)
+
+//@ func (*MemoryCache).Has
+//@   prop C12
+//@   requires cache.clock != nil
+//@   allocates map
+//@   modifies cache.cache, now
+//@   ensures[hit]  result ==> atlock(cache.cache != nil && in(key, cache.cache)) && now() <= atlock(cache.cache[key].expirationTimeNano)
+//@   ensures[miss] seq: !result ==> !old(cache.cache != nil && in(key, cache.cache)) || now() > old(cache.cache[key].expirationTimeNano)
+
+//@ func (*MemoryCache).Set
+//@   prop C12, C17
+//@   requires cache.clock != nil
+//@   allocates map
+//@   modifies cache.cache, mapof(cache.cache), cache.currentCacheSize, now
+//@   spawn modifies mapof(cache.cache), cache.cache, cache.currentCacheSize
+//@   ensures[stored] seq: result == nil ==> cache.cache != nil && in(key, cache.cache) && cache.cache[key].value == value && cache.cache[key].expirationTimeNano == expirationTimeNano
+//@   ensures[fresh-for-ttl] result == nil ==> expirationTimeNano >= old(now()) + ttlDuration && expirationTimeNano <= now() + ttlDuration
+//@   ensures[others-untouched] seq: old(cache.cache) != nil ==> cache.cache == old(cache.cache) && forall(k, K, k != key ==> (in(k, cache.cache) <==> old(in(k, cache.cache))) && cache.cache[k] == old(cache.cache[k]))
+//@   ensures[size-gate] seq: result == nil && cache.calculateCacheSize && cache.calculateSizeFunc != nil ==> old(cache.currentCacheSize) + itemSize <= cache.maxCacheSize && cache.currentCacheSize == old(cache.currentCacheSize) + itemSize
+//@   ensures[refused-unchanged] seq: result != nil ==> old(cache.cache) != nil ==> forall(k, K, (in(k, cache.cache) <==> old(in(k, cache.cache))) && cache.cache[k] == old(cache.cache[k]))
+
+//@ func (*MemoryCache).Del
+//@   prop C12, C17
+//@   allocates map
+//@   modifies cache.cache, mapof(cache.cache), cache.currentCacheSize
+//@   ensures[deleted] seq: cache.cache != nil && !in(key, cache.cache)
+//@   ensures[others-untouched] seq: old(cache.cache) != nil ==> cache.cache == old(cache.cache) && forall(k, K, k != key ==> (in(k, cache.cache) <==> old(in(k, cache.cache))) && cache.cache[k] == old(cache.cache[k]))
